@@ -824,6 +824,17 @@ class Interp:
 
     def enum_lookup(self, ci: ClassInfo, v):
         members = self.repo.enum_members(ci)
+        if isinstance(v, tuple):
+            def conc(x):
+                if isinstance(x, AInt) and x.ext is None:
+                    bits = self.simp_bits(x.bits)
+                    if all(isinstance(b, F) and b.is_const for b in bits):
+                        c = sum(b.c << i for i, b in enumerate(bits))
+                        return bool(c) if x.isbool else c
+                return x
+            v = tuple(conc(x) for x in v)
+            if any(isinstance(x, (AInt, AFin, AOpq)) for x in v):
+                return self.opaque(f"tuple-valued enum {ci.name} of abstract components")
         if isinstance(v, AEnum):
             return v
         if isinstance(v, EnumMember):
@@ -833,11 +844,24 @@ class Interp:
             if forms is not None and all(isinstance(f, F) and f.is_const for f in forms):
                 v = int("".join(str(f.c) for f in forms) or "0", 2)
             else:
+                if getattr(self, "exact_enum_folding", False) and forms is not None and self.repo.find_method(ci, "_missing_") is not None:
+                    # reserved-folding enum over a few bit atoms: the exact finite function value -> member
+                    acc = set()
+                    try:
+                        fin_atoms(AInt(list(reversed(forms))), acc)
+                    except Abort:
+                        acc = None
+                    if acc is not None and len(acc) <= 8:
+                        try:
+                            return fin_lift(lambda x: self.enum_lookup(ci, x), AInt(list(reversed(forms))))
+                        except PathRaise:
+                            pass
                 return AEnum(ci, v)
         if isinstance(v, (AOpq,)):
             return self.opaque(f"enum {ci.name} of opaque")
         for m in members.values():
-            if m.value == v and type(m.value) == type(v) or (isinstance(v, (int, bool)) and isinstance(m.value, (int, bool)) and m.value == v):
+            if m.value == v and type(m.value) == type(v) or (isinstance(v, (int, bool)) and isinstance(m.value, (int, bool)) and m.value == v) \
+                    or (isinstance(v, tuple) and isinstance(m.value, tuple) and m.value == v):
                 return m
         miss = self.repo.find_method(ci, "_missing_")
         if miss is not None:
@@ -1015,9 +1039,18 @@ class Frame:
         names = set()
         for e in results:
             names.update(e.keys())
+        names = [n_ for n_ in names if not (n_ in base_env and n_ not in touched)]
+        if not all(can_merge([e.get(n_, _MISSING) for e in results], atoms) for n_ in names):
+            # the cases differ in SHAPE (a container grows on some assignments only): no exact merge — fork the path on the atoms
+            if len(atoms) > 8:
+                raise Abort("data-dependent branch changes the shape of a container over too many atoms")
+            for a_ in atoms:
+                if a_ in I.st.subst:
+                    continue
+                v_ = I.st.choose(f"atom:{I.atoms.names[a_]!r}"[:60])
+                I.st.lin.add(F(1 << a_, int(v_)))
+            return m(st)
         for nme in names:
-            if nme in base_env and nme not in touched:
-                continue
             vals = [e.get(nme, _MISSING) for e in results]
             orig = base_env.get(nme, _MISSING)
             base_env[nme] = merge_cases(atoms, vals, orig)
@@ -1644,6 +1677,39 @@ def snapshot(v, memo):
         return v
     memo[id(v)] = r
     return r
+
+
+def can_merge(vals, atoms, depth=0) -> bool:
+    """can the per-case values be merged exactly (same container shapes, scalars within the finite-function width)?"""
+    first = vals[0]
+    if any(v is _MISSING for v in vals):
+        return all(v is _MISSING for v in vals)
+    if all(_same(first, v) for v in vals[1:]):
+        return True
+    if isinstance(first, ABits):
+        return all(isinstance(v, ABits) and len(v.items) == len(first.items) for v in vals)
+    if isinstance(first, list):
+        return all(isinstance(v, list) and len(v) == len(first) for v in vals) and (depth > 3 or all(can_merge([v[i] for v in vals], atoms, depth + 1) for i in range(len(first))))
+    if isinstance(first, ATable):
+        return all(isinstance(v, ATable) and v.rows == first.rows and v.cols == first.cols for v in vals)
+    if isinstance(first, AObj):
+        if not all(isinstance(v, AObj) and v.cls is first.cls for v in vals):
+            return False
+        keys = set()
+        for v in vals:
+            keys.update(v.attrs)
+        return depth > 3 or all(can_merge([v.attrs.get(k, _MISSING) for v in vals], atoms, depth + 1) for k in keys)
+    if isinstance(first, dict):
+        return all(isinstance(v, dict) and set(v) == set(first) for v in vals)
+    if isinstance(first, (AOpq, AView, AExt)):
+        return all(v is first for v in vals)
+    inner = set()
+    try:
+        for v in vals:
+            fin_atoms(v, inner)
+    except Abort:
+        return False
+    return len(set(atoms) | inner) <= MAX_FIN_ATOMS
 
 
 def merge_value(atoms, vals):
